@@ -158,19 +158,22 @@ def share_rule(rep, model, rule_fn, new_rule: str, text: str, only_rules=None, k
     (several properties rest on the same structural fact; each check must catch a break of it on its own)."""
     from ..report import Report
     sub = Report(rep.prop_id, rep.tier, rep.src_root, quiet=True, write=False)
-    rule_fn(model, sub)
-    rep.rule(new_rule, text)
-    for o in sub.obligations:
-        if only_rules is not None and o["rule"] not in only_rules:
-            continue
-        if keep is not None and not keep(o):
-            continue
-        o = dict(o)
-        o["note"] = (o.get("note", "") + f" [shared rule {o['rule']}]").strip()
-        o["rule"] = new_rule
-        rep.obligations.append(o)
-    for fl in sub.floors:
-        rep.floors.append(fl)
+    try:
+        rule_fn(model, sub)
+    finally:
+        # what the rule decided before it gave up (if it did) is kept: a violation found by then is definite
+        rep.rule(new_rule, text)
+        for o in sub.obligations:
+            if only_rules is not None and o["rule"] not in only_rules:
+                continue
+            if keep is not None and not keep(o):
+                continue
+            o = dict(o)
+            o["note"] = (o.get("note", "") + f" [shared rule {o['rule']}]").strip()
+            o["rule"] = new_rule
+            rep.obligations.append(o)
+        for fl in sub.floors:
+            rep.floors.append(fl)
 
 
 def devar(t):
@@ -369,6 +372,269 @@ def depth_bound_assumption(model, rep):
         rep.assume(f"no circuit graph is deeper than {name} = {val} layers ({rel}; bounds {uses} traversal loop(s), which stop there with a warning and drop the rest)")
 
 
+def single_definition_rule(model, rep, rule: str, names, user_cls: str):
+    """The classes a matching relation is stated over exist once: the name the package exports at its root is the class the library's own code compares against
+    (a second definition of the same name, re-exported in its place, gives users members that are equal to nothing inside the library)."""
+    from ..model import AnalysisError as _AE, ClassInfo as _CI
+    rep.rule(rule, f"each of {list(names)} is defined once; where the package root re-exports the name it binds the class that {user_cls}'s module uses (resolved through the imports)")
+    users = model.classes_by_name.get(user_cls, [])
+    if len(users) != 1:
+        raise _AE(f"anchor class '{user_cls}' not found or ambiguous (matches: {len(users)})")
+    umod = users[0].module
+    roots = [m for n, m in model.modules.items() if "." not in n]
+    for name in names:
+        hits = model.classes_by_name.get(name, [])
+        if not hits:
+            raise _AE(f"anchor class '{name}' not found")
+        internal = model.lookup_symbol(umod, name) if name != user_cls else users[0]
+        exported = [model.lookup_symbol(r, name) for r in roots]
+        exported = [e for e in exported if isinstance(e, _CI)]
+        ok = len(hits) == 1 or (isinstance(internal, _CI) and all(e is internal for e in exported))
+        rep.check(ok, rule, f"{name}[one definition]", hits[0].loc,
+                  found=f"{len(hits)} definition(s): " + ", ".join(h.module.relpath for h in hits) + (f"; root exports {exported[0].module.relpath}" if exported else "") +
+                        (f"; {user_cls} uses {internal.module.relpath}" if isinstance(internal, _CI) else ""),
+                  required="one class behind the public name and the internal uses",
+                  what=f"`{name}` exists {len(hits)} times and the package root exports another one than {user_cls} compares against: a member obtained from the public name "
+                       f"(e.g. {name}.ALL) is not the member the library tests for, so identifiers built with it match nothing they should", detail=f"duplicate:{name}")
+
+
+def order_kept_rule(model, rep, rule: str, cls_name: str, field_name: str, text: str, what: str):
+    """A sequence whose ORDER carries meaning (rows of a drawing, the chain of index kernels) is stored as it was built: no method of the class re-orders or
+    de-duplicates the stored field (``self.F = sorted(.. self.F ..)`` / ``set`` / ``reversed`` / ``self.F.sort()`` / ``.reverse()``)."""
+    import ast as _ast
+    from ..model import AnalysisError as _AE
+    rep.rule(rule, text)
+    K = model.cls(cls_name)
+    flds = K.all_fields()
+    in_init = any(isinstance(n, _ast.Attribute) and n.attr == field_name for k in K.mro() for fs in k.methods.values() for f in fs for n in _ast.walk(f.node))
+    if field_name not in flds and not in_init:
+        raise _AE(f"{cls_name}.{field_name} vanished")
+    REORDER = {"sorted", "set", "frozenset", "reversed", "unique", "unique_in_order", "sort", "argsort", "shuffle", "fromkeys"}
+    n_sites, bad = 0, []
+    for k in K.mro():
+        for fs in list(k.methods.values()) + [[p_] for p_ in k.properties.values()]:
+            for f in fs:
+                sn = f.self_name
+                if sn is None:
+                    continue
+                for n in _ast.walk(f.node):
+                    tgt, val = None, None
+                    if isinstance(n, (_ast.Assign, _ast.AnnAssign, _ast.AugAssign)) and getattr(n, "value", None) is not None:
+                        for t in (n.targets if isinstance(n, _ast.Assign) else [n.target]):
+                            if isinstance(t, _ast.Attribute) and isinstance(t.value, _ast.Name) and t.value.id == sn and t.attr == field_name:
+                                tgt, val = t, n.value
+                    elif isinstance(n, _ast.Call) and _ast.unparse(n.func).endswith("__setattr__") and len(n.args) == 3 and isinstance(n.args[1], _ast.Constant) \
+                            and n.args[1].value == field_name:
+                        tgt, val = n, n.args[2]
+                    if tgt is not None:
+                        n_sites += 1
+                        reads_self = any(isinstance(y, _ast.Attribute) and y.attr == field_name and isinstance(y.value, _ast.Name) and y.value.id == sn for y in _ast.walk(val))
+                        calls = [(y.func.id if isinstance(y.func, _ast.Name) else y.func.attr) for y in _ast.walk(val)
+                                 if isinstance(y, _ast.Call) and isinstance(y.func, (_ast.Name, _ast.Attribute))]
+                        hit = [c for c in calls if c in REORDER]
+                        if reads_self and hit:
+                            bad.append((f, n, f"`{_ast.unparse(n)[:100]}` re-orders / de-duplicates the stored sequence ({hit[0]})"))
+                    if isinstance(n, _ast.Call) and isinstance(n.func, _ast.Attribute) and n.func.attr in ("sort", "reverse") and isinstance(n.func.value, _ast.Attribute) \
+                            and n.func.value.attr == field_name and isinstance(n.func.value.value, _ast.Name) and n.func.value.value.id == sn:
+                        n_sites += 1
+                        bad.append((f, n, f"`{_ast.unparse(n)[:100]}` re-orders the stored sequence in place"))
+    rep.analysed[f"{rule} stores of {cls_name}.{field_name} in its own methods"] = n_sites
+    if bad:
+        for f, n, why in bad:
+            rep.fail(rule, f"{cls_name}.{field_name}[order kept]", f"{f.module.relpath}:{n.lineno}", found=why, required="stored in the order it was given / built", what=what + ": " + why,
+                     detail="reordered")
+    else:
+        rep.ok(rule, f"{cls_name}.{field_name}[order kept]", K.loc, found=f"{n_sites} store(s) in the class, none re-orders the sequence", required="stored in the order it was given / built")
+
+
+DEPTH_BUDGET_RULES = {"C01": "C01.R17", "C02": "C02.L13", "C04": "C04.D8", "C05": "C05.K11", "C06": "C06.U8", "C07": "C07.A13", "C08": "C08.S7", "C09": "C09.P12",
+                      "C10": "C10.T10", "C11": "C11.F9", "C13": "C13.M8", "C15": "C15.O8", "C18": "C18.W7"}
+REFERENCE_DEPTH_BUDGET = 5000     # layers the walk of the reference tree visits before it gives up (MAX_GRAPH_DEPTH there)
+
+
+def depth_budget_rule(model, rep, rule: str):
+    """The number of layers the cached layer walk may visit is computed from the source (constant propagation through the call that starts the walk, the
+    parameters and defaults of helpers it runs in, and the constructor / test of the loop guard) and must not be lower than on the reference tree: below it,
+    a graph that the reference tree lists completely is cut off with a warning -- operations vanish from every listing, duration, index and export."""
+    import ast as _ast
+    from ..model import AnalysisError as _AE, FunctionInfo as _FI
+    rep.rule(rule, f"GraphBranch._update_branch_iterator (the walk behind every node iterator, leaf lookup, listing, duration and export) visits at least "
+                   f"{REFERENCE_DEPTH_BUDGET} layers before its loop guard stops it: the budget in force is computed by constant propagation through the guard's "
+                   f"constructor, the helpers the walk runs in and their defaults; an unguarded walk has no bound")
+    G = model.cls("GraphBranch")
+    f = G.resolve("_update_branch_iterator")
+    if f is None:
+        raise _AE("GraphBranch._update_branch_iterator vanished")
+    INF = float("inf")
+
+    def const_eval(e, env, module):
+        if isinstance(e, _ast.Constant) and isinstance(e.value, (int, float)) and not isinstance(e.value, bool):
+            return e.value
+        if isinstance(e, _ast.Attribute) and isinstance(e.value, _ast.Name) and "@class" in env and e.value.id in ("self", "cls", env["@class"].name):
+            # a constant of the class (``self.LIMIT`` / ``Cls.LIMIT``)
+            for k_ in env["@class"].mro():
+                if e.attr in k_.class_attrs:
+                    return const_eval(k_.class_attrs[e.attr], {}, k_.module)
+                if e.attr in k_.own_fields and getattr(k_.own_fields[e.attr], "default", None) is not None and not k_.is_dataclass:
+                    return const_eval(k_.own_fields[e.attr].default, {}, k_.module)
+        if isinstance(e, _ast.Name):
+            if e.id in env:
+                return env[e.id]
+            tgt = model.lookup_symbol(module, e.id)
+            if isinstance(tgt, tuple) and tgt[0] == "const" and e.id not in getattr(tgt[2], "rebound", ()):
+                return const_eval(tgt[1], {}, tgt[2])
+            return None
+        if isinstance(e, _ast.Attribute) and isinstance(e.value, _ast.Name) and e.value.id in ("np", "numpy", "math") and e.attr in ("inf", "infty"):
+            return INF
+        if isinstance(e, _ast.Attribute) and isinstance(e.value, _ast.Name) and e.value.id == "sys" and e.attr == "maxsize":
+            return INF
+        if isinstance(e, _ast.UnaryOp) and isinstance(e.op, _ast.USub):
+            v = const_eval(e.operand, env, module)
+            return -v if v is not None else None
+        if isinstance(e, _ast.BinOp):
+            a, b = const_eval(e.left, env, module), const_eval(e.right, env, module)
+            if a is None or b is None:
+                return None
+            try:
+                return {_ast.Add: a + b, _ast.Sub: a - b, _ast.Mult: a * b}.get(type(e.op)) if not isinstance(e.op, (_ast.FloorDiv, _ast.Div)) else (a // b if isinstance(e.op, _ast.FloorDiv) else a / b)
+            except ZeroDivisionError:
+                return None
+        if isinstance(e, _ast.Call) and isinstance(e.func, _ast.Name) and e.func.id in ("min", "max", "int") and not e.keywords:
+            vs = [const_eval(a, env, module) for a in e.args]
+            if any(v is None for v in vs) or not vs:
+                return None
+            return min(vs) if e.func.id == "min" else max(vs) if e.func.id == "max" else vs[0]
+        if isinstance(e, _ast.IfExp):
+            # ``x if x is not None else DEFAULT``: both alternatives bound the budget from below by their minimum
+            a, b = const_eval(e.body, env, module), const_eval(e.orelse, env, module)
+            return min(a, b) if a is not None and b is not None else (a if b is None and isinstance(e.orelse, _ast.Constant) and e.orelse.value is None else b if a is None and isinstance(e.body, _ast.Constant) and e.body.value is None else None)
+        return None
+
+    def bind(fn_node, call, env, module, skip_self):
+        """parameter -> constant for a call of ``fn_node`` (None where not a constant)"""
+        a_ = fn_node.args
+        params = [x.arg for x in a_.posonlyargs + a_.args]
+        if skip_self and params:
+            params = params[1:]
+        out = {}
+        dflt = dict(zip(params[::-1], list(a_.defaults)[::-1]))
+        for i, arg in enumerate(call.args if call is not None else []):
+            if i < len(params) and not isinstance(arg, _ast.Starred):
+                out[params[i]] = const_eval(arg, env, module)
+        for kw in (call.keywords if call is not None else []):
+            if kw.arg in params:
+                out[kw.arg] = const_eval(kw.value, env, module)
+        for p_ in params:
+            if p_ not in out and p_ in dflt:
+                out[p_] = const_eval(dflt[p_], {}, None) if False else None
+        return out, params, dflt
+
+    def guard_budget(K, call, env, module):
+        """budget enforced by ``with K(..) as loop: while .. loop.m():`` -- the field that m compares its counter with, as set by K.__init__ for this call"""
+        init = K.resolve("__init__")
+        if init is None:
+            return None
+        got, params, dflt = bind(init.node, call, env, module, True)
+        ienv = {}
+        for p_ in params:
+            if got.get(p_) is not None:
+                ienv[p_] = got[p_]
+            elif p_ in dflt and p_ not in {k.arg for k in call.keywords} and params.index(p_) >= len(call.args):
+                v = const_eval(dflt[p_], {}, init.module)
+                if v is not None:
+                    ienv[p_] = v
+        fields = {}
+        sn = init.self_name
+        ienv["@class"] = K
+        for stt in init.node.body:
+            tg, val = (stt.targets[0], stt.value) if isinstance(stt, _ast.Assign) and len(stt.targets) == 1 else (stt.target, stt.value) if isinstance(stt, _ast.AnnAssign) and stt.value is not None else (None, None)
+            if tg is not None and isinstance(tg, _ast.Attribute) and isinstance(tg.value, _ast.Name) and tg.value.id == sn:
+                fields[tg.attr] = const_eval(val, ienv, init.module)
+        return fields
+
+    budgets = []     # (value or None, where)
+
+    def walk_function(fi, env, depth):
+        par = {}
+        for n in _ast.walk(fi.node):
+            for ch in _ast.iter_child_nodes(n):
+                par[ch] = n
+        sn = fi.self_name
+        for n in _ast.walk(fi.node):
+            if isinstance(n, _ast.While):
+                # guards named in the test
+                guards = [c for c in _ast.walk(n.test) if isinstance(c, _ast.Call) and isinstance(c.func, _ast.Attribute) and isinstance(c.func.value, _ast.Name)]
+                bound_here = INF
+                for g in guards:
+                    # find the with item binding that name
+                    cur, item = n, None
+                    while cur in par and item is None:
+                        cur = par[cur]
+                        if isinstance(cur, _ast.With):
+                            for it in cur.items:
+                                if isinstance(it.optional_vars, _ast.Name) and it.optional_vars.id == g.func.value.id and isinstance(it.context_expr, _ast.Call):
+                                    item = it
+                    if item is None:
+                        continue
+                    kname = item.context_expr.func.id if isinstance(item.context_expr.func, _ast.Name) else item.context_expr.func.attr if isinstance(item.context_expr.func, _ast.Attribute) else None
+                    tgt = model.lookup_symbol(fi.module, kname) if kname else None
+                    from ..model import ClassInfo as _CI
+                    if not isinstance(tgt, _CI):
+                        budgets.append((None, f"{fi.qualname}: loop guard {kname} not resolved"))
+                        continue
+                    fields = guard_budget(tgt, item.context_expr, env, fi.module)
+                    m = tgt.resolve(g.func.attr)
+                    limit = None
+                    if m is not None and fields is not None:
+                        msn = m.self_name
+                        for c in _ast.walk(m.node):
+                            if isinstance(c, _ast.Compare) and len(c.ops) == 1 and isinstance(c.ops[0], (_ast.GtE, _ast.Gt, _ast.Lt, _ast.LtE)):
+                                sides = [c.left, c.comparators[0]]
+                                attrs = [x.attr if isinstance(x, _ast.Attribute) and isinstance(x.value, _ast.Name) and x.value.id == msn else None for x in sides]
+                                # counter OP limit : the limit is the side that __init__ sets from its argument (the counter starts at a literal 0 / is incremented here)
+                                incremented = {t.target.attr for t in _ast.walk(m.node) if isinstance(t, _ast.AugAssign) and isinstance(t.target, _ast.Attribute)}
+                                for a_name, other in ((attrs[0], sides[1]), (attrs[1], sides[0])):
+                                    if a_name in incremented:
+                                        if isinstance(other, _ast.Attribute) and isinstance(other.value, _ast.Name) and other.value.id == msn:
+                                            limit = fields.get(other.attr)
+                                        else:
+                                            limit = const_eval(other, {}, m.module)
+                    budgets.append((limit, f"{fi.qualname}: while guarded by {kname}.{g.func.attr}() -> {limit}"))
+                    if limit is not None:
+                        bound_here = min(bound_here, limit)
+                if not guards:
+                    budgets.append((INF, f"{fi.qualname}: unguarded while"))
+        # helpers of the same class the walk runs in (generators it iterates, functions it calls)
+        if depth < 2 and fi.cls is not None:
+            for n in _ast.walk(fi.node):
+                if isinstance(n, _ast.Call) and isinstance(n.func, _ast.Attribute) and isinstance(n.func.value, _ast.Name) and n.func.value.id == sn:
+                    h = fi.cls.resolve(n.func.attr)
+                    if isinstance(h, _FI) and h is not fi and any(isinstance(x, _ast.While) for x in _ast.walk(h.node)):
+                        got, params, dflt = bind(h.node, n, env, fi.module, True)
+                        henv = {}
+                        for p_ in params:
+                            if got.get(p_) is not None:
+                                henv[p_] = got[p_]
+                            elif p_ in dflt and p_ not in {k.arg for k in n.keywords} and params.index(p_) >= len(n.args):
+                                v = const_eval(dflt[p_], {}, h.module)
+                                if v is not None:
+                                    henv[p_] = v
+                        walk_function(h, henv, depth + 1)
+
+    walk_function(f, {}, 0)
+    if not budgets:
+        raise _AE("GraphBranch._update_branch_iterator: the layer walk (a while loop, here or in a helper it runs in) was not found")
+    rep.analysed[f"{rule} layer-walk loops"] = [w for _, w in budgets]
+    undecided = [w for v, w in budgets if v is None]
+    if undecided:
+        raise _AE(f"layer-walk budget not a constant: {undecided[0]}")
+    budget = min(v for v, _ in budgets)
+    rep.check(budget >= REFERENCE_DEPTH_BUDGET, rule, "GraphBranch._update_branch_iterator[depth budget]", f.loc,
+              found=f"the walk gives up after {budget if budget != INF else 'no bound of'} layers", required=f">= {REFERENCE_DEPTH_BUDGET} layers (reference tree)",
+              what=f"the layer walk behind every node iterator stops after {budget} layers (the reference tree walks {REFERENCE_DEPTH_BUDGET}): in a deeper graph the operations "
+                   f"beyond it silently vanish from listings, durations, indices and exports", detail="depth-budget")
+
+
 def factory_counter(model, owner_module, factory):
     """``default_factory`` of an identifier field that reads a class-level counter: ``lambda: Cls._counter`` or a named function whose single statement returns
     that expression.  Returns (class name, counter attribute) or None."""
@@ -398,6 +664,7 @@ _PY_TEXT = {
     "PY3": "no container created outside a loop is stored into a collection and then changed in place in that loop without being rebound (all stored entries would be one object)",
     "PY4": "no mutable default argument that the function changes or keeps, no `[<mutable>] * n`, no dict.fromkeys(keys, <mutable>)",
     "PY6": "no float-typed value (end_time, start_time, duration ...) is stored into an array created with an integer dtype or integer fill value (numpy truncates silently)",
+    "PY7": "no dataclass fills a defaulted INIT field in __post_init__ from other init fields (the derived value is passed on by dataclasses.replace and goes stale)",
     "PY5": "no truth test of a value declared Optional[T] where T has falsy legitimate values (0, '', a zero-valued IntEnum member, an object with __len__ / __bool__): None is tested with `is None`",
 }
 
